@@ -23,6 +23,9 @@ type SolveResult struct {
 	Sliced  bool              // discharged on the cone-of-influence slice of the query
 }
 
+// wallFactor: the wall-clock backstop is this many times the CPU budget.
+const wallFactor = 20
+
 type solverSpec struct {
 	name string
 	args func(file string, timeoutS int) []string
@@ -200,7 +203,11 @@ func solveWith(solvers []solverSpec, query string, timeoutS int, all bool, probe
 		return SolveResult{Status: "error", Raw: err.Error()}
 	}
 	defer os.Remove(file)
-	ctx, cancel := context.WithTimeout(context.Background(), time.Duration(timeoutS+5)*time.Second)
+	// The budget of a query is CPU time of the solver process (ulimit -t), not wall-clock time: on a
+	// loaded machine a starved solver takes longer but is not cut short, so the verdict does not
+	// depend on what else is running. The wall-clock limit is only a backstop.
+	wallS := timeoutS*wallFactor + 30
+	ctx, cancel := context.WithTimeout(context.Background(), time.Duration(wallS)*time.Second)
 	defer cancel()
 	type one struct {
 		name   string
@@ -213,14 +220,19 @@ func solveWith(solvers []solverSpec, query string, timeoutS int, all bool, probe
 	for _, s := range solvers {
 		s := s
 		go func() {
-			args := s.args(file, timeoutS)
-			cmd := exec.CommandContext(ctx, args[0], args[1:]...)
+			args := s.args(file, wallS)
+			sh := fmt.Sprintf("ulimit -t %d; exec \"$@\"", timeoutS)
+			cmd := exec.CommandContext(ctx, "sh", append([]string{"-c", sh, "sh"}, args...)...)
 			var out bytes.Buffer
 			cmd.Stdout = &out
 			cmd.Stderr = &out
 			t0 := time.Now()
-			_ = cmd.Run()
+			runErr := cmd.Run()
 			txt := out.String()
+			killed := false
+			if ee, ok := runErr.(*exec.ExitError); ok && ee.ProcessState != nil && !ee.ProcessState.Exited() {
+				killed = true // CPU budget exhausted (SIGXCPU/SIGKILL) or cancelled
+			}
 			// drop solver warnings preceding the answer
 			for strings.HasPrefix(txt, "WARNING") || strings.HasPrefix(txt, "(warning") {
 				if i := strings.Index(txt, "\n"); i >= 0 {
@@ -241,7 +253,7 @@ func solveWith(solvers []solverSpec, query string, timeoutS int, all bool, probe
 			case strings.HasPrefix(first, "(error") || strings.Contains(first, "rror"):
 				st = "error"
 			}
-			if ctx.Err() != nil && st != "sat" && st != "unsat" {
+			if (ctx.Err() != nil || killed) && st != "sat" && st != "unsat" {
 				st = "timeout"
 			}
 			ch <- one{s.name, st, txt, time.Since(t0).Seconds()}
